@@ -215,6 +215,18 @@ type finding struct {
 	Text     string
 }
 
+func isHex(s string) bool {
+	if len(s) < 7 {
+		return false
+	}
+	for i := 0; i < len(s); i++ {
+		if !('0' <= s[i] && s[i] <= '9' || 'a' <= s[i] && s[i] <= 'f') {
+			return false
+		}
+	}
+	return true
+}
+
 func loadFindings(prop string) []finding {
 	f, err := os.Open(filepath.Join(root, "KNOWN_FINDINGS.txt"))
 	if err != nil {
@@ -230,6 +242,7 @@ func loadFindings(prop string) []finding {
 			continue
 		}
 		var fd finding
+		sawCommit := false
 		switch {
 		case strings.HasPrefix(line, "known:"):
 			fd.Kind = "known"
@@ -248,6 +261,12 @@ func loadFindings(prop string) []finding {
 			}
 			kv := strings.SplitN(tok, "=", 2)
 			if len(kv) != 2 {
+				if fd.Kind == "fixed" && !sawCommit && isHex(tok) {
+					// "fixed: property=<id> <commit> ..."
+					sawCommit = true
+					line = rest
+					continue
+				}
 				break
 			}
 			switch kv[0] {
